@@ -651,18 +651,30 @@ def sweep():
             out.append({"obligation": "sql_prec.NP2.%s.%s.%s" % (_NAME.get(o1, o1), _NAME.get(o2, o2), side), "input": "from t | select {v = %s}" % items[i],
                         "failing": bad is not None, "expected": None if bad is None else "%r on row %r" % (bad[1], bad[0]),
                         "observed": None if bad is None else repr(bad[2]), "replay_kind": "none"})
-    # negation of columns that are negative literals (inlined): `-a` with a = -5 must not come out as `--5`
-    for prql, want in [("from t\nderive {n = -5}\nselect {v = -n}\n", 5), ("from t\nderive {n = -5}\nselect {v = 3 - n}\n", 8), ("from t\nderive {n = -0.5}\nselect {v = -n}\n", 0.5),
-                       ("from t\nderive {n = -5}\nselect {v = -(-n)}\n", -5), ("from t\nselect {v = a * -1}\n", -7)]:
-        ok, sql = replaylib.compile_prql(prql, "sql.sqlite")
-        rec = {"obligation": "sql_prec.NP4.std_neg.l0.Neg", "input": prql, "expected": repr(want), "replay_kind": "none"}
-        if not ok:
-            rec.update(failing="PANIC" in sql, observed=sql[:200])
-        else:
-            ok2, got = replaylib.sqlite_rows(setup, sql)
-            rec.update(failing=(not ok2) or not got or got[0][0] is None or abs(float(got[0][0]) - want) > 1e-9, observed=repr(got)[:200] + " <- " + " ".join(sql.split())[:120])
+    for prql, want in NEG_CASES:
+        rec = _neg_try(prql, want)
+        rec["obligation"] = "sql_prec.NP4.std_neg.l0.Neg"
         out.append(rec)
     return out
+
+
+# negation of columns that are negative literals (inlined): `-a` with a = -5 must not come out as `--5` (a comment that swallows the rest of the statement)
+NEG_SETUP = "create table t(id integer, a integer); insert into t values (1, 7);"
+NEG_CASES = [("from t\nderive {n = -5}\nselect {v = -n}\n", 5), ("from t\nderive {n = -5}\nselect {v = 3 - n}\n", 8), ("from t\nderive {n = -0.5}\nselect {v = -n}\n", 0.5),
+             ("from t\nderive {n = -5}\nselect {v = -(-n)}\n", -5), ("from t\nselect {v = a * -1}\n", -7),
+             ("from t\nderive {n = -2.5}\nselect {v = -n, w = a + 1}\n", 2.5)]
+
+
+def _neg_try(prql, want):
+    import replaylib
+    ok, sql = replaylib.compile_prql(prql, "sql.sqlite")
+    rec = {"input": prql, "expected": repr(want), "replay_kind": "neg"}
+    if not ok:
+        rec.update(failing="PANIC" in sql, observed=sql[:200])
+    else:
+        ok2, got = replaylib.sqlite_rows(NEG_SETUP, sql)
+        rec.update(failing=(not ok2) or not got or got[0][0] is None or abs(float(got[0][0]) - want) > 1e-9, observed=repr(got)[:200] + " <- " + " ".join(sql.split())[:120])
+    return rec
 
 
 _NAME = {"+": "Plus", "-": "Minus", "*": "Multiply", "/": "Divide", "%": "Modulo", "==": "Eq", "!=": "NotEq", "<": "Lt", ">": "Gt", "<=": "LtEq", ">=": "GtEq",
@@ -698,6 +710,11 @@ BETWEEN_CASES = [
 
 
 def replay(failure):
+    if "std_neg" in failure.get("obligation", "") or ".Neg" in failure.get("obligation", ""):
+        for prql, want in NEG_CASES:
+            r = _neg_try(prql, want)
+            if r["failing"]:
+                return r
     if "NP6" in failure.get("obligation", "") or "try_into_between" in failure.get("obligation", ""):
         for src, exp in BETWEEN_CASES:
             r = _null_try(src, exp)
@@ -712,4 +729,6 @@ def replay(failure):
 
 
 def rerun(doc):
+    if doc.get("replay_kind") == "neg":
+        return _neg_try(doc["input"], float(doc["expected"]))
     return _null_try(doc["input"], [tuple(r) for r in doc["expected"]])
